@@ -17,7 +17,9 @@ import (
 
 // boundary addresses of every private block and their public neighbours
 var v4s = []string{"9.255.255.255", "10.0.0.0", "10.255.255.255", "11.0.0.0", "172.15.255.255", "172.16.0.0", "172.31.255.255", "172.32.0.0", "192.167.255.255", "192.168.0.0", "192.168.255.255", "192.169.0.0", "10.1.2.3", "198.51.100.1"}
-var v6s = []string{"fbff:ffff:ffff:ffff:ffff:ffff:ffff:ffff", "fc00::", "fdff:ffff:ffff:ffff:ffff:ffff:ffff:ffff", "fe00::", "fd12:3456::1", "2001:db8::1"}
+var v6s = []string{"fbff:ffff:ffff:ffff:ffff:ffff:ffff:ffff", "fc00::", "fdff:ffff:ffff:ffff:ffff:ffff:ffff:ffff", "fe00::", "fd12:3456::1", "2001:db8::1",
+	// public IPv6 addresses whose low 32 bits spell a private IPv4 address (not IPv4-mapped: the 96 bits in front are not ::ffff)
+	"2606:4700:10::c0a8:101", "2a00:1450:4001:81b::a00:1", "fe00::a0a:a0a"}
 
 type sym struct {
 	name string
